@@ -342,7 +342,10 @@ def k9_nested_composition(s: str, by_ref: bool, m0: int, m1: int, m2: int, m3: i
     if bug == 'attribute':
         attribute_ok = bool(says_identity) == some_member_is_identity
     else:
-        attribute_ok = (not says_identity or L.same_str(expected, s)) and (says_identity or not every_member_is_identity)
+        # only the sound direction: a transformer that SAYS it is the identity must denote the identity.  (The converse -
+        # every member is `identity` => the attribute is set - is an optimisation, not behaviour a user can observe; demanding
+        # it would be more than the property states.)
+        attribute_ok = (not says_identity or L.same_str(expected, s))
     return ob.post(output_ok and attribute_ok)
 
 
